@@ -1372,6 +1372,7 @@ impl Harness for H {
                 ex.store = self.build_store(case, &store);
                 continue;
             }
+            let t0 = sim.clock().now_ms();
             match &case.fault {
                 Some((at, call, after)) if *at == gi && matches!(g, GOp::Put { mode: GMode::Overwrite, .. }) => {
                     let kind = if *after { simcore::sim::FaultKind::FailAfter } else { simcore::sim::FaultKind::FailBefore };
@@ -1380,6 +1381,35 @@ impl Harness for H {
                     sim.clear_faults();
                 }
                 _ => block(ex.run_op(0, &mut mem0, g)),
+            }
+            // A commit is stamped with the time it happened: whatever a successful
+            // put / multipart / copy / rename committed reports a last_modified
+            // inside the call's own window on the (simulated) clock - not the time
+            // of an earlier commit of the same bytes.
+            if !self.bare && matches!(case.clock, ClockMode::Frozen | ClockMode::Tick(_)) {
+                let committed: Option<u8> = match g {
+                    GOp::Put { key, .. } | GOp::Multi { key, .. } => Some(*key),
+                    // (a self-copy / self-rename keeps the object: nothing is committed)
+                    GOp::Copy { from, to, .. } | GOp::Rename { from, to, .. } if from != to => Some(*to),
+                    _ => None,
+                };
+                let ok = hist.lock().unwrap().last().map(|e| !matches!(e.res, Some(MRes::Err(_)) | None)).unwrap_or(false);
+                if let (Some(k), true) = (committed, ok) {
+                    if matches!(g, GOp::Multi { .. }) && !matches!(hist.lock().unwrap().last().map(|e| &e.op), Some(MOp::MultiComplete { .. })) {
+                        continue;
+                    }
+                    let t1 = sim.clock().now_ms();
+                    if let Ok(m) = block(ex.store.head(&key_path(k))) {
+                        let lm = m.last_modified.timestamp_millis();
+                        if lm < t0 || lm > t1 {
+                            return Err(violation!(
+                                "c07.commit-time-outside-call",
+                                "{g:?} ran while the clock went from {t0} to {t1}, yet the object it committed reports last_modified {lm}"
+                            ));
+                        }
+                        rep.probe("commit_timestamps_checked", 1);
+                    }
+                }
             }
         }
         // concurrent clients
